@@ -498,6 +498,36 @@ theorem rotateLadder_first_rung_rat (b : Box ℚ) (hV : M3.det b.vects ≠ 0) (U
 
 end ladder
 
+section natoms
+variable {K : Type} [Field K] [LinearOrder K] [IsStrictOrderedRing K]
+open Atomman.C04.Gen
+
+/-- **the expected count of the source is the model's**: `int(round(newvolume / volume) * natoms)` with
+    `newvolume = |newvects[0]·(newvects[1]×newvects[2])|`, `volume = |det vects|` is `|det U|·natoms` (exact arithmetic;
+    `rnd` = `round`, the identity on integers) — the number `rotateChecked` / `rotateLadder` compare the selection with. -/
+theorem gen_newNatoms_eq_model (rnd : K → Int) (hr : ∀ n : Int, rnd (n : K) = n) (U : M3 Int) (V : M3 K)
+    (hV : M3.det V ≠ 0) (N : Nat) :
+    genNewNatoms rnd (genNewVolume (newVects U V)) |M3.det V| N = (((M3.det U).natAbs * N : Nat) : Int) := by
+  unfold genNewNatoms
+  rw [gen_newVolume_eq_model, newVects_det, abs_mul, mul_div_assoc, div_self (abs_ne_zero.mpr hV), mul_one,
+    ← Int.cast_abs, hr]
+  push_cast
+  rw [Int.abs_eq_natAbs]
+
+/-- the refusal "vectors are parallel or planar" (`newnatoms == 0`) is `det U = 0` for a system with atoms. -/
+theorem gen_planar_refusal_iff (rnd : K → Int) (hr : ∀ n : Int, rnd (n : K) = n) (U : M3 Int) (V : M3 K)
+    (hV : M3.det V ≠ 0) (N : Nat) (hN : 0 < N) :
+    genNewNatoms rnd (genNewVolume (newVects U V)) |M3.det V| N = 0 ↔ M3.det U = 0 := by
+  rw [gen_newNatoms_eq_model rnd hr U V hV N]
+  constructor
+  · intro h
+    have h' : (M3.det U).natAbs * N = 0 := by exact_mod_cast h
+    rcases Nat.mul_eq_zero.mp h' with h1 | h1
+    · exact Int.natAbs_eq_zero.mp h1
+    · omega
+  · intro h; simp [h]
+end natoms
+
 /-! ### non-vacuity -/
 example : decode 2 3 2 (encode 2 3 2 1 2 1 4) = (1, 2, 1, 4) := by decide
 example : (supersizeAtoms (K := ℚ) ⟨M3.one, ⟨0, 0, 0⟩⟩ ⟨0, 2⟩ ⟨-1, 1⟩ ⟨0, 1⟩ [⟨1, ⟨0, 0, 0⟩, []⟩]).length = 4 := by
